@@ -554,8 +554,13 @@ var boundedChecks = map[string][]BoundedCheck{
 		Bound:    "BOUNDED: all lists of up to 4 bids and every 97th list of 5 bids over 24 bid shapes (3 prices x 2 bidders x 2 bid types x 2 amounts)",
 		TestFile: "/verif/conformance/bidsbyprice_conformance_test.go", InPkgDir: "x/fundraising/types", Run: "TestZZConformanceBidsByPrice"}},
 	"C02": {settlementTransfers},
-	"C01": {settlementTransfers},
+	"C01": {settlementTransfers, refundsNonNegative},
+	"C04": {refundsNonNegative},
 }
+
+var refundsNonNegative = BoundedCheck{Name: "keeper.CalculateBatchAllocation#refunds-are-non-negative", What: "trusted postcondition of Keeper.CalculateBatchAllocation: every refund is >= 0, at most the bidder's reservation, and equal to reservation minus payment (per-bid rounding bounds combined with a regrouping of sums over the order book, not proved)",
+	Bound:    "BOUNDED: every single bid, every pair and every 7th triple of bids over 36 bid shapes (2 bidders x worth/many x prices 0.5, 0.333333333333333333, 1.7 x amounts 1, 7, 100), supplies 10/150, allowance 1000 or lowered to 5 before settlement (about 8,000 order books on the simulated application)",
+	TestFile: "/verif/conformance/refunds_nonnegative_conformance_test.go", InPkgDir: "x/fundraising/keeper", Run: "TestKeeperTestSuite/TestZZConformanceRefundsNonNegative"}
 
 var settlementTransfers = BoundedCheck{ThoroughOnly: true, Name: "keeper.AllocateSellingCoin+RefundPayingCoin", What: "contracts of Keeper.AllocateSellingCoin and Keeper.RefundPayingCoin (every bidder of the map receives exactly their amount from the respective escrow, nobody else is touched); both are verified, the test cross-checks the bank and map-range models against the real code",
 	Bound:    "BOUNDED: every assignment of the amounts {0, 1, 5} to three bidders, both functions (54 runs on the simulated application)",
